@@ -295,6 +295,11 @@ def _check(ctx, lib, W, c, obs=None):
         if iswk:
             return d.vf_wk_unmarshal(WKK[kind], o, dbuf, 1 if comp else 0, 1 if checked else 0) != 0
         return d.vf_lq_unmarshal(LQK[kind], o, dbuf, 1 if comp else 0, 1 if checked else 0) != 0
+    if obs is None and (c.get("which", 0) // 3 + c.get("bits", 0)) % 2 == 1:
+        # the caller first loaded the buffer without validation into the object that now receives the validating load (any outcome
+        # is allowed for the first load); the validating verdict is a function of the bytes, not of what the object already holds
+        unm(new, False)
+        ctx.event("unvalidated-load-first")
     ok = unm(new, True)
     if obs is not None:
         # verdicts of both modes on the (possibly corrupted) buffer, and what an accepted object marshals to
